@@ -3,6 +3,7 @@
 // (crash-contained execution in forked children, see vh::ForkedRunner).
 #include "vh_alloc.h"
 #define VH_WITH_ALLOC 1
+#define VH_CSTR_KEYS 1
 #include "vh_script.h"
 #include "bitserializer/rapidjson_archive.h"
 
